@@ -53,6 +53,9 @@ claimed.update({
  "C14": dict(category="model_checking",
    text=("RELATIONAL symbolic execution of the real code: two worlds whose absolute time references (injected clock, lastBlockTime, prepareSentTime, lastBlockTimestamp, Reset argument) differ by any multiple of the timestamp increment run the same API call with the same arguments and callback results from every pair of related Inv states; every reading of the machine's wall clock is an unconstrained fresh value in each world. The solver proves equal event sequences (self-made timestamps shifted by the offset, Timer.Reset/Extend durations identical) and related post-states (instants shifted, round-trip estimates and everything else equal); one relational step from every related pair covers scripted runs of any length. The truncation lemma is proved separately for all 64-bit clocks and instantiated."),
    design_ref="DESIGN.md §6 C14", technique="relational (two-run) symbolic execution of go/ssa + SMT (cvc5 bit-vectors-as-integers, one-shot mode for the division lemmas)", note=STEP_NOTE),
+ "C18": dict(category="model_checking",
+   text=("Bounded symbolic model checking of the real timer package: every sequence of up to 4 (thorough 5) operations from {Reset(d>0), Reset(0), Extend, time passes} is executed on the real New/Reset/Extend/stop/drain/C against a model of Go's runtime timers and channels, with heights, views, durations and EVERY clock reading (time.Now, time.Since, inside NewTimer) as non-decreasing solver variables. The solver proves for all of them: latest epoch reported, the timer delivers, never earlier than reset instant + duration + extensions, not later than the same counted from the end of the last operation, zero-duration reset fires at once with its own (not a stale) expiry; blocking forever is a violation. Counterexamples are replayed in real time against the compiled package."),
+   design_ref="DESIGN.md §6 C18", technique="symbolic execution of go/ssa with a runtime-timer/channel model + SMT (cvc5 bit-vectors-as-integers)", note=TB + " The Go runtime's timer semantics (>= 1.23) are modelled, not executed; sequences longer than the bound are outside the claim."),
 })
 
 na = {
